@@ -728,7 +728,7 @@ func c02Store(c *core.Ctx) {
 	if hdr.Fields["PreviousLocalExitRoot"] != nil {
 		prev = hdr.Fields["PreviousLocalExitRoot"].String()
 	}
-	c.Decide(strings.Contains(prev, cert+".PrevLocalExitRoot"), rule, "aggsender.(*AggSender).sendCertificate#header.PreviousLocalExitRoot", save.Pos(), "stored previous LER ← the sent certificate's: "+prev)
+	c.Decide(strings.Contains(prev, cert+".PrevLocalExitRoot") && !strings.Contains(prev, "phi{") && !strings.Contains(prev, "LastSentCertificate"), rule, "aggsender.(*AggSender).sendCertificate#header.PreviousLocalExitRoot", save.Pos(), "stored previous LER ← the sent certificate's: "+prev)
 	// stored only after the agglayer accepted it; and the send uses the certificate that was built
 	var send *ssa.Call
 	core.Instrs(fn, func(i ssa.Instruction) {
